@@ -30,6 +30,17 @@ Definition expand (e : mev) : list event :=
   | MA n cnt => repeat (Apply n) cnt
   end.
 
+Inductive oev :=
+| OAck (b : batch) | ONoAck (b : batch)
+| OKill (n : nat) | ORestart (n : nat) | OPause (n : nat) | OResume (n : nat)
+| ORead (kvs : list (key * val)).
+
+Inductive wstep :=
+| WE (e : event)
+| WAck (b : batch)              (* the request was acknowledged: b must be in the model's acked set now *)
+| WNoAck (b : batch)            (* unacknowledged request (it may or may not have reached WriteToRaft) *)
+| WRead (kvs : list (key * val)).
+
 Inductive case :=
 | CRot (m : nat) (ps : list (nat * bool)) (online : list nat) (newm : nat)
        (gn : option (nat * list nat)) (upd : option (nat * list nat)) (gp : list nat) (el : option (nat * list nat))
@@ -38,6 +49,7 @@ Inductive case :=
 | CReplay (fs n commit snp : nat) (clears : list nat) (first : nat) (rep : option (nat * nat * nat)) (appl : nat)
 | CAck (evs : list mev) (acks : list batch) (final : list (key * val))
 | CAckErr (acked : bool)
+| CHist (obs : list oev) (w : list wstep)
 | CConflict (old : list batch) (j : nat) (new : list batch) (applied : list batch).
 
 Definition dw_eqb (a : option dwrap) (b : option (N * list N * N * list N)) : bool :=
@@ -101,6 +113,67 @@ Definition conflict_applied (old : list batch) (j : nat) (new : list batch) : li
   let follower' := with_elog follower (firstn (length leader_log) leader_log) in
   flat_map (fun e => match e with EData _ _ b => [b] | _ => [] end) (elog follower').
 
+(* ---------------------------------------------------------------- acceptance of a recorded black-box history.
+   obs  = what was observed at the cluster (write requests with/without acknowledgement, kills, restarts, pauses,
+          resumes, full read answers), in order.
+   w    = a candidate model execution (events of the model under the reference raft oracle, with check points).
+   accepted = w projects exactly onto obs, every event of w is enabled, a majority is available after every event,
+   every acknowledged batch is in the model's acked set at its check point, every read answer equals what the
+   caught-up master replica of the model returns, and the model acknowledges nothing else. *)
+Definition kv_eqb (a b : key * val) : bool := N.eqb (fst a) (fst b) && Z.eqb (snd a) (snd b).
+Definition oev_eqb (a b : oev) : bool :=
+  match a, b with
+  | OAck x, OAck y | ONoAck x, ONoAck y => batch_eqb x y
+  | OKill x, OKill y | ORestart x, ORestart y | OPause x, OPause y | OResume x, OResume y => Nat.eqb x y
+  | ORead x, ORead y => list_eqb kv_eqb x y
+  | _, _ => false
+  end.
+
+Definition project (w : list wstep) : list oev :=
+  flat_map (fun x => match x with
+                     | WE (Kill n) => [OKill n] | WE (Restart n) => [ORestart n]
+                     | WE (Pause n) => [OPause n] | WE (Resume n) => [OResume n]
+                     | WE _ => []
+                     | WAck b => [OAck b] | WNoAck b => [ONoAck b] | WRead kvs => [ORead kvs]
+                     end) w.
+
+Fixpoint accepts_from (s : sys) (w : list wstep) : option sys :=
+  match w with
+  | [] => Some s
+  | WE e :: r =>
+      match step raft_ref s e with
+      | Some s' => if minority_down s' then accepts_from s' r else None
+      | None => None
+      end
+  | WAck b :: r => if batch_in b (map (fun a => snd a) (acked s)) then accepts_from s r else None
+  | WNoAck _ :: r => accepts_from s r
+  | WRead kvs :: r =>
+      let m := master s in
+      if caught_up s m
+         && forallb (fun kv => match read s m (fst kv) with Some v => Z.eqb v (snd kv) | None => false end) kvs
+         && Nat.eqb (length kvs) (length (nodup N.eq_dec (map fst (view (nodes s m)))))
+      then accepts_from s r else None
+  end.
+
+Definition accepts (obs : list oev) (w : list wstep) : bool :=
+  list_eqb oev_eqb (project w) obs &&
+  match accepts_from (init (cfg_repaired 3 30000)) w with
+  | Some s => same_batches (map (fun a => snd a) (acked s))
+                           (flat_map (fun o => match o with OAck b => [b] | _ => [] end) obs)
+  | None => false
+  end.
+
+(* index of the first witness step that is rejected (for diagnostics) *)
+Fixpoint reject_at (s : sys) (w : list wstep) (i : nat) : option nat :=
+  match w with
+  | [] => None
+  | x :: r =>
+      match accepts_from s [x] with
+      | Some s' => reject_at s' r (S i)
+      | None => Some i
+      end
+  end.
+
 Definition variant (cur rep : bool) : nat :=
   match cur, rep with true, true => 0 | true, false => 1 | false, true => 2 | false, false => 3 end.
 
@@ -121,6 +194,7 @@ Definition classify (c : case) : nat :=
       variant (replay_eqb (replay_model false fs n commit snp clears) (first, rep, appl))
               (replay_eqb (replay_model true fs n commit snp clears) (first, rep, appl))
   | CAck evs acks final => variant (ack_agrees false evs acks final) (ack_agrees true evs acks final)
+  | CHist obs w => if accepts obs w then 0 else 3
   | CConflict old j new applied =>
       if list_eqb batch_eqb (conflict_applied old j new) applied then 0 else 3
   | CAckErr acked =>
